@@ -30,7 +30,7 @@ ProbeInit == Init /\ probe = 0
 ProbeNext ==
     \/ probe = 0 /\ Len(hist) < CoreLen /\ Next /\ probe' = 0
     \/ probe = 0 /\ Next /\ LastRec.op \in ProbeWriters /\ probe' = 1
-    \/ probe \in 1 .. Len(ReadSeq) /\ Next /\ IsOp(ReadSeq[probe]) /\ probe' = probe + 1
+    \/ probe \in 1 .. Len(ReadSeq) /\ Do(ReadSeq[probe][1], ReadSeq[probe][2]) /\ probe' = probe + 1
 ProbeSpec == ProbeInit /\ [][ProbeNext]_pvars
 
 CoreView  == <<Lo, Lc, Lpts, Io, Ic, Ipts, pc, left, saved>>
